@@ -362,6 +362,19 @@ def keyfile_password_prompt(keyfile):
     return pw
 
 
+def _header_text(text):
+    """
+    Return the text such that it can be used as the value of an HTTP header
+    field: Any sequence of CR, LF and the whitespace following it is replaced
+    by one blank (so the text cannot end the header line or add header
+    lines), and control characters and non-ASCII characters are escaped.
+    """
+    text = re.sub(r'[\r\n]+[ \t]*', ' ', text)
+    text = re.sub(r'[\x00-\x08\x0b-\x1f\x7f]',
+                  lambda m: f'\\x{ord(m.group()):02x}', text)
+    return text.encode('ascii', 'backslashreplace').decode('ascii')
+
+
 class ThreadedHTTPServer(socketserver.ThreadingMixIn, HTTPServer):
     """
     Defines an HTTPServer class for indication reception.
@@ -709,7 +722,8 @@ class ListenerRequestHandler(BaseHTTPRequestHandler):
         if cim_error is not None:
             self.send_header("CIMError", cim_error)
         if cim_error_details is not None:
-            self.send_header("CIMErrorDetails", cim_error_details)
+            self.send_header("CIMErrorDetails",
+                             _header_text(cim_error_details))
         if headers is not None:
             for header, value in headers:
                 self.send_header(header, value)
